@@ -936,3 +936,19 @@ v("C20", "C-leaf-payload-extend", "fire", "codec/formats/coord_list.py",
   "                self.payloads.append(val.value)", "                self.payloads.extend([val.value, val.value])", "C20.R8")
 v("C20", "U-occupancy-not-kept-on-object", "fire", "codec/formats/uncompressed.py",
   "                    self.occupancies.append(cumulative_occupancy)\n", "", "C20.R8")
+
+
+# -- behaviour-preserving refactorings written by sub-agents (refactored/<id>/,
+# DESIGN.md 10.8): whole patches that every check must stay silent on
+def refactored(rid):
+    for prop in ["C%02d" % i for i in range(1, 21) if i != 6]:
+        VARIANTS.setdefault(prop, []).append(
+            {"name": "refactored-" + rid, "kind": "silent",
+             "patch": "refactored/%s/patch.diff" % rid,
+             "file": None, "old": None, "new": None, "expect_rule": None, "count": 1})
+
+
+for _rid in ("C01-r", "C02-r", "C03-r", "C04-r", "C05-r", "C07-r", "C08-r", "C09-r",
+             "C10-r", "C11-r", "C12-r", "C13-r", "C14-r", "C15-r", "C16-r", "C17-r",
+             "C18-r", "C19-r", "C20-r"):
+    refactored(_rid)
